@@ -29,7 +29,7 @@ INV = lambda i, j: [
     KEY + 'key_ok(board, zobrist_hasher)',
     KEY + 'forall|k: int| 0 <= k < new_moves@.len() ==> key_ok(#[trigger] &new_moves@[k], zobrist_hasher)',
     SND + 'forall|k: int| 0 <= k < new_moves@.len() ==> succ_correct(board, #[trigger] &new_moves@[k])',
-    SND + 'forall|k: int| 0 <= k < new_moves@.len() ==> legal_position(#[trigger] &new_moves@[k])',
+    SND + 'forall|k: int| 0 <= k < new_moves@.len() ==> legal_position(#[trigger] &new_moves@[k]) && is_successor(board, &new_moves@[k])',
     CMP + 'forall|k: int| 0 <= k < new_moves@.len() ==> { let s = #[trigger] new_moves@[k]; s.last_move is Some && own_at(board, move_of(&s).0) && visited(move_of(&s).0, %s, %s) && legal_from(board, move_of(&s), move_gen_mode) }' % (i, j),
     CMP + 'forall|m: Mv| own_at(board, m.0) && visited(m.0, %s, %s) && #[trigger] legal_from(board, m, move_gen_mode) ==> has_move(new_moves@, 0, m)' % (i, j),
     CMP + 'distinct_moves(new_moves@, 0)',
@@ -46,7 +46,8 @@ GM = {
         # C02: every successor is the position after its move
         SND + 'forall|k: int| 0 <= k < res@.len() ==> succ_correct(board, #[trigger] &res@[k])',
         # ... and is again a legal position: the precondition of generation is re-established (chains of any length)
-        SND + 'forall|k: int| 0 <= k < res@.len() ==> legal_position(#[trigger] &res@[k])',
+        # (lemma_chain_closure turns this into the statement for chains of any length)
+        SND + 'forall|k: int| 0 <= k < res@.len() ==> legal_position(#[trigger] &res@[k]) && is_successor(board, &res@[k])',
         # C05: every successor's incremental key equals its from-scratch key
         KEY + 'forall|k: int| 0 <= k < res@.len() ==> key_ok(#[trigger] &res@[k], zobrist_hasher)',
     ],
@@ -84,7 +85,7 @@ GM = {
                 assert forall|k: int| 0 <= k < new_moves@.len() implies succ_correct(board, #[trigger] &new_moves@[k]) by {
                     if k < before.len() { assert(new_moves@[k] == before[k]); }
                 }
-                assert forall|k: int| 0 <= k < new_moves@.len() implies legal_position(#[trigger] &new_moves@[k]) by {
+                assert forall|k: int| 0 <= k < new_moves@.len() implies legal_position(#[trigger] &new_moves@[k]) && is_successor(board, &new_moves@[k]) by {
                     if k < before.len() { assert(new_moves@[k] == before[k]); }
                 }
             }''', KEY + '''proof {
@@ -134,7 +135,7 @@ GM = {
         assert forall|k: int| 0 <= k < v.len() implies succ_correct(board, #[trigger] &v[k]) by {
             if k < n0 { assert(v[k] == before_c[k]); }
         }
-        assert forall|k: int| 0 <= k < v.len() implies legal_position(#[trigger] &v[k]) by {
+        assert forall|k: int| 0 <= k < v.len() implies legal_position(#[trigger] &v[k]) && is_successor(board, &v[k]) by {
             if k < n0 { assert(v[k] == before_c[k]); }
         }
     }''', KEY + '''proof {
